@@ -63,6 +63,8 @@ func NewSubscriptionManager(
 		whenCtx:     map[context.Context][]*WhenBinding{},
 		whenTimeCtx: map[context.Context][]*WhenTimeBinding{},
 		whenArgsCtx: map[context.Context][]*WhenArgsBinding{},
+
+		whenQueryCtx: map[context.Context][]*whenQueryBinding{},
 	}
 }
 
@@ -440,7 +442,7 @@ func (sm *Subscriptions) processWhenQueryCtx() []chan struct{} {
 		}
 
 		// delete the ctx and all the bindings
-		delete(sm.whenArgsCtx, ctx)
+		delete(sm.whenQueryCtx, ctx)
 		for _, binding := range bindings {
 			sm.gcWhenQueryBinding(binding, false)
 			ret = append(ret, binding.ch)
@@ -943,6 +945,9 @@ func (sm *Subscriptions) dispose() {
 		for _, binding := range sm.whenArgs[state] {
 			closeSafe(binding.ch)
 		}
+	}
+	for _, bind := range sm.whenQuery {
+		closeSafe(bind.ch)
 	}
 	for _, bind := range sm.whenQueueEnds {
 		closeSafe(bind.ch)
